@@ -222,7 +222,9 @@ def run(ctx):
                 concrete += 1
                 break
     # many divisions with lengths that are not dyadic: positions must be index x length, not a running sum
-    for (s, l, span, height, load) in ([(10, 2, "365.76", "3.3", "50"), (15, 7, "0.1", "3.3", "-12.5"), (12, 6, "12345.678", "0.7", "12345.678")]
+    for (s, l, span, height, load) in ([(10, 2, "365.76", "3.3", "50"), (15, 7, "0.1", "3.3", "-12.5"), (12, 6, "12345.678", "0.7", "12345.678"),
+                                        # measured downwards or leftwards (negative level height / span length): the same grid, mirrored
+                                        (3, 2, "400", "-300", "50"), (2, 3, "-250", "300", "10")]
                                        + ([] if ctx.tier == "quick" else [(28, 3, "365.76", "0.1", "7"), (20, 11, "0.7", "3.3", "1e-3"), (33, 9, "1.1", "2.2", "99999.99")])):
         args = ["generate", "--type", "retic", "--spans", str(s), "--levels", str(l), "--span", span, "--level", height, "--load", load]
         r = cli.run(ctx, args, name="c19")
@@ -234,7 +236,8 @@ def run(ctx):
             concrete += 1
     ctx.log("%d generations of large or finely divided frames checked against the documentation" % big_runs)
     # several definitions written one after the other by one process: each is what a process of its own prints
-    seq = [(30, 20), (2, 1), (40, 25), (1, 1), (3, 2)] if ctx.tier == "quick" else [(30, 20), (2, 1), (40, 25), (1, 1), (3, 2), (60, 14), (2, 2), (0, 3)]
+    # (among them grids with the same number of nodes and of bars but another shape, one right after the other: 2 x 6 and 3 x 4 nodes, 15 bars)
+    seq = [(30, 20), (2, 1), (40, 25), (1, 1), (3, 2), (1, 5), (2, 3), (3, 3), (1, 7)] if ctx.tier == "quick" else [(30, 20), (2, 1), (40, 25), (1, 1), (3, 2), (1, 5), (2, 3), (3, 3), (1, 7), (60, 14), (2, 2), (0, 3), (1, 1)]
     many = C.dump("defwrites", [{"Spans": s_, "Levels": l_, "Span": "400", "Height": "300", "Load": "50"} for s_, l_ in seq], timeout=600)
     for (s_, l_), text in zip(seq, many):
         alone = cli.run(ctx, ["generate", "--type", "retic", "--spans", str(s_), "--levels", str(l_)], name="c19").stdout
